@@ -61,6 +61,7 @@ type Env struct {
 	cur    *RecBlock
 
 	nImports int
+	forceMidRead bool
 	// MidBlockReadPct: share of blocks in which the committed state is read (all getters, all query
 	// endpoints) between EndBlock and Commit
 	MidBlockReadPct int
@@ -216,7 +217,8 @@ func (e *Env) EndBlock() []byte {
 	// (after EndBlock, before Commit): every keeper getter through Observe on the committed-state
 	// context - which must still show the previous boundary - and every query endpoint through
 	// app.Query. Reads must not leave anything behind that changes later answers or results.
-	if e.MidBlockReadPct > 0 && e.R.Chance(e.MidBlockReadPct) {
+	if force := e.forceMidRead; (e.MidBlockReadPct > 0 && e.R.Chance(e.MidBlockReadPct)) || force {
+		e.forceMidRead = false
 		func() {
 			defer func() {
 				if p := recover(); p != nil {
@@ -322,6 +324,9 @@ func (e *Env) GovAlong(desc string, along []*TxPlan, msgs ...sdk.Msg) bool {
 		e.Deliver(t)
 	}
 	e.GovExecBlockTxs = nil
+	// the block whose EndBlock executes the proposal: the committed state (still the old parameters)
+	// is read between that EndBlock and the Commit in most of these blocks
+	e.forceMidRead = e.MidBlockReadPct > 0 && e.R.Chance(70)
 	e.EndBlock()
 	if e.Halted != "" {
 		return false
